@@ -23,7 +23,7 @@ from xsdata.formats.dataclass.context import XmlContext
 from xsdata.formats.dataclass.parsers import XmlParser
 from xsdata.formats.dataclass.serializers import XmlSerializer
 from xsdata.formats.dataclass.serializers.config import SerializerConfig
-from xsdata.formats.dataclass.transports import Transport
+from xsdata.formats.dataclass.transports import DefaultTransport, Transport
 
 from .. import codegen_run as cg
 from .. import infoset
@@ -170,17 +170,39 @@ def tree_of(el):
     return {"name": list(el["name"]), "text": text, "kids": kids}
 
 
-class Recording(Transport):
-    def __init__(self, response: bytes):
+class HttpStatusError(Exception):
+    """what requests.Response.raise_for_status raises, for the stand-in session"""
+
+
+class _Response:
+    def __init__(self, status_code, content):
+        self.status_code, self.content = status_code, content
+
+    def raise_for_status(self):
+        if self.status_code >= 400:
+            raise HttpStatusError(self.status_code)
+
+
+class _Session:
+    def __init__(self, owner):
+        self.owner = owner
+
+    def post(self, url, data=None, headers=None, timeout=None):
+        self.owner.calls.append({"url": url, "data": data, "headers": dict(headers)})
+        return _Response(self.owner.status, self.owner.response)
+
+
+class Recording(DefaultTransport):
+    """The library's DEFAULT transport over a recording stand-in for the HTTP session: the status handling of
+    DefaultTransport.handle_response is part of the exchange (SOAP 1.1 faults arrive with HTTP 500)."""
+
+    __slots__ = ("calls", "response", "status")
+
+    def __init__(self, response: bytes, status: int = 200):
         self.calls = []
         self.response = response
-
-    def get(self, url, params, headers):  # pragma: no cover
-        raise NotImplementedError
-
-    def post(self, url, data, headers):
-        self.calls.append({"url": url, "data": data, "headers": dict(headers)})
-        return self.response
+        self.status = status
+        super().__init__(session=_Session(self))
 
 
 def pascal(name):
@@ -270,7 +292,7 @@ def exchange(ctx, d, o, svc, xctx, req, oinfo, caller_headers=None):
     supported = d["transport"] == "http://schemas.xmlsoap.org/soap/http"
     for fault in (False, True, "nodetail") + (("second",) if o["fault"] and o.get("nfaults", 1) == 2 else ()):
         resp = response_xml(d, o, fault)
-        tr = Recording(resp)
+        tr = Recording(resp, status=500 if fault else 200)
         client = Client.from_service(svc)
         client.transport = tr
         client.parser = XmlParser(context=xctx)
@@ -319,6 +341,22 @@ def exchange(ctx, d, o, svc, xctx, req, oinfo, caller_headers=None):
                 ctx.violation(f"fault detail not bound: {f!r}", {**oinfo, "response": resp.decode()})
         elif "pong" not in repr(body):
             ctx.violation(f"response value not bound: {body!r}", {**oinfo, "response": resp.decode()})
+    # a status that carries no SOAP envelope (404) is an error of the transport, never an output envelope
+    if supported:
+        tr = Recording(b"<html>not found</html>", status=404)
+        client = Client.from_service(svc)
+        client.transport = tr
+        client.parser = XmlParser(context=xctx)
+        client.serializer = XmlSerializer(context=xctx)
+        try:
+            got = client.send(req, headers=caller_headers)
+            ctx.violation(f"Client.send returned {type(got).__name__} for an HTTP 404 response", oinfo)
+        except HttpStatusError:
+            pass
+        except Exception as ex:  # noqa: BLE001
+            ctx.violation(f"HTTP 404 response: {type(ex).__name__}: {ex} instead of the transport's status error", oinfo)
+        caller_headers.clear()
+        caller_headers["x-user"] = "1"
     # a wrong input object is rejected before anything is sent
     tr = Recording(b"")
     client = Client.from_service(svc)
